@@ -2651,6 +2651,127 @@ def run_boundary(shard, ctx, focus=None):
         rep.bad("index_distance|value|more_rows_than_atoms", "index array with more rows than atoms", {"cls": "more_rows_than_atoms"})
 
 
+def run_inplace(shard, ctx, focus=None):
+    """round-5 seed (C14-e): AN ARGUMENT ARRAY EDITED IN PLACE BETWEEN TWO CALLS (same object, new values).
+    call(x) -> edit x in place -> call(x): the second result must be the one for the NEW values.  Arguments: the box
+    array (float32 / float64, as argument and as box attribute of an AtomArray) and the coordinate arrays; edits: scale,
+    one element, one row, swap rows; boxes orthorhombic and triclinic.  The oracle never goes through biotite's box
+    helpers: coordinates are a compact true geometry X (inside a cube of side 0.25) wrapped by lattice vectors of the
+    CURRENT box values, so the expected displacement is X2 - X1, fractions come from a float64 solve, moved coordinates
+    must be lattice images inside the box."""
+    import biotite.structure as struc
+
+    rep = Reporter(ctx, shard)
+    focus = None
+    kk = np.arange(1, 13, dtype=float)[:, None]
+    gen = 1.0 + 0.25 * np.modf(kk * np.sqrt(np.array([2.0, 3.0, 5.0])))[0]
+    X1, X2 = gen[:6], gen[6:]
+    nsh = np.array([[1, 0, -2], [0, 0, 0], [-1, 2, 1], [2, -2, 0], [0, 1, 0], [-2, 0, 1]], dtype=float)
+    idx = np.array([[0, 6], [1, 7], [2, 8], [3, 9], [4, 10], [5, 11]])
+    edits = ["scale_half", "one_element", "one_row", "swap_rows", "scale_double_back"]
+
+    def edit_box(b, how):
+        if how == "scale_half":
+            b *= 0.5
+        elif how == "one_element":
+            b[1, 1] += 1.0
+        elif how == "one_row":
+            b[2] = b[2] + b[0]
+        elif how == "swap_rows":
+            b[[0, 1]] = b[[1, 0]]
+        else:
+            b *= 2.0
+
+    for bname, b0 in (("ortho", np.diag([5.0, 4.0, 6.0])), ("triclinic", np.array([[4.0, 0, 0], [2, 3, 0], [1, 1, 3]]) * 1.5)):
+        for dt in (np.float32, np.float64):
+            for holder in ("box_argument", "atomarray_box_attribute"):
+                b = np.array(b0, dtype=dt)
+                W1 = np.zeros((6, 3), dtype=np.float32)
+                W2 = np.zeros((6, 3), dtype=np.float32)
+                arr = to_object(np.zeros((12, 3)))
+                if holder == "atomarray_box_attribute":
+                    arr.box = b
+                    b = arr.box
+                arr.bonds = struc.BondList(12, np.array([[i, i + 6, 1] for i in range(6)]))
+                for step, how in enumerate([None] + edits):
+                    if how is not None:
+                        edit_box(b, how)                       # the SAME array object, new values
+                    B = np.asarray(b, dtype=np.float64).copy()   # values for the oracle
+                    # coordinate arrays are edited in place as well: re-wrapped for the current lattice
+                    W1[...] = X1 + nsh @ B
+                    W2[...] = X2 + nsh[::-1] @ B
+                    arr.coord[:6] = W1
+                    arr.coord[6:] = W2
+                    fc = {"box": bname, "dtype": np.dtype(dt).name, "holder": holder, "step": step, "edit": how,
+                          "cls": "%s,%s" % (holder, "first_call" if how is None else "after_in_place_edit")}
+                    ctx.journal(json.dumps({"s": shard, "f": fc}))
+                    tolv = 3e-5 * (1 + np.abs(B).max())
+                    exp = X2 - X1
+                    bx = {"box": b} if holder == "box_argument" else {}
+                    checks = []
+                    if holder == "box_argument":
+                        checks += [("displacement", lambda: struc.displacement(W1, W2, box=b), exp),
+                                   ("distance", lambda: struc.distance(W1, W2, box=b), np.linalg.norm(exp, axis=1)),
+                                   ("index_displacement", lambda: struc.index_displacement(arr.coord, idx, periodic=True, box=b), exp)]
+                    else:
+                        checks += [("index_displacement", lambda: struc.index_displacement(arr, idx, periodic=True), exp),
+                                   ("index_distance", lambda: struc.index_distance(arr, idx, periodic=True), np.linalg.norm(exp, axis=1))]
+                    for name, fn, want in checks:
+                        ctx.ev(6, 6)
+                        got = call(rep, name, fc, fn)
+                        if got is not None and (np.shape(got) != np.shape(want) or
+                                                not (np.abs(np.asarray(got, dtype=float) - want) <= tolv).all()):
+                            rep.bad("%s|stale_after_in_place_edit|%s" % (name, fc["cls"]),
+                                    "the result is not the minimum-image value for the CURRENT values of the box / coordinate arrays",
+                                    fc, np.asarray(want).reshape(-1)[:6].tolist(), np.asarray(got).reshape(-1)[:6].tolist())
+                    # box helpers against the float64 solve
+                    ctx.ev(4, 4)
+                    fr = call(rep, "coord_to_fraction", fc, struc.coord_to_fraction, W1, b)
+                    wantf = geom.lattice_coefficients(W1.astype(np.float64), B)
+                    if fr is not None and not (np.abs(fr - wantf) <= 5e-5 * (1 + np.abs(wantf))).all():
+                        rep.bad("coord_to_fraction|stale_after_in_place_edit|%s" % fc["cls"],
+                                "fractions are not the solution of f @ box = coord for the current box values", fc,
+                                wantf[0].tolist(), np.asarray(fr)[0].tolist())
+                    mv = call(rep, "move_inside_box", fc, struc.move_inside_box, W2, b)
+                    if mv is not None:
+                        g = np.asarray(mv, dtype=np.float64)
+                        res, _ = geom.lattice_residual(g - W2.astype(np.float64), B)
+                        f2 = geom.lattice_coefficients(g, B)
+                        if (res > tolv * 3).any() or (f2 < -1e-4).any() or (f2 > 1 + 1e-4).any():
+                            rep.bad("move_inside_box|stale_after_in_place_edit|%s" % fc["cls"],
+                                    "moved coordinates are not lattice images inside the CURRENT box", fc)
+                    rp = call(rep, "remove_pbc_from_coord", fc, struc.remove_pbc_from_coord,
+                              np.concatenate([W1[:1], W2[:1], W1[1:2]]), b)
+                    if rp is not None:
+                        g = np.asarray(rp, dtype=np.float64)
+                        d01 = np.linalg.norm(g[1] - g[0]) - np.linalg.norm(X2[0] - X1[0])
+                        d12 = np.linalg.norm(g[2] - g[1]) - np.linalg.norm(X1[1] - X2[0])
+                        if abs(d01) > tolv * 3 or abs(d12) > tolv * 3:
+                            rep.bad("remove_pbc_from_coord|stale_after_in_place_edit|%s" % fc["cls"],
+                                    "the reassembled chain does not have the true neighbour distances for the current box", fc)
+                    if holder == "atomarray_box_attribute":
+                        r = call(rep, "remove_pbc", fc, struc.remove_pbc, arr)
+                        if r is not None:
+                            d = np.linalg.norm(r.coord[idx[:, 0]].astype(float) - r.coord[idx[:, 1]].astype(float), axis=1)
+                            if (np.abs(d - np.linalg.norm(exp, axis=1)) > tolv * 3).any():
+                                rep.bad("remove_pbc|stale_after_in_place_edit|%s" % fc["cls"],
+                                        "bonded pairs are not at their true distance after remove_pbc with the edited box", fc)
+                        rb = call(rep, "repeat_box", fc, struc.repeat_box, arr)
+                        if rb is not None:
+                            sh = rb[0].coord.astype(float).reshape(27, 12, 3) - arr.coord.astype(float)[None]
+                            res, nn = geom.lattice_residual(sh.reshape(-1, 3), B)
+                            if (res > tolv * 3).any() or len({tuple(x) for x in nn.reshape(27, 12, 3)[:, 0].astype(int).tolist()}) != 27:
+                                rep.bad("repeat_box|stale_after_in_place_edit|%s" % fc["cls"],
+                                        "repeated coordinates are not the 27 lattice images for the current box", fc)
+                    uc = call(rep, "unitcell_from_vectors", fc, struc.unitcell_from_vectors, b)
+                    if uc is not None and max(abs(float(u) - w) for u, w in zip(uc, geom.unitcell_of(B))) > 1e-4:
+                        rep.bad("unitcell_from_vectors|stale_after_in_place_edit|%s" % fc["cls"], "cell of the edited box is wrong", fc)
+                    io = call(rep, "is_orthogonal", fc, struc.is_orthogonal, b)
+                    if io is not None and bool(io) != box_is_ortho(B):
+                        rep.bad("is_orthogonal|stale_after_in_place_edit|%s" % fc["cls"], "is_orthogonal for the edited box is wrong", fc)
+                    ctx.outcome(("inplace", bname, np.dtype(dt).name, holder, step))
+
+
 def run_edge(shard, ctx, focus=None):
     """empty and singleton pieces"""
     import biotite.structure as struc
@@ -2795,6 +2916,7 @@ def shards(tier, seed):
     out.append({"kind": "derived"})
     out.append({"kind": "edge"})
     out.append({"kind": "boundary"})
+    out.append({"kind": "inplace"})
     out.append({"kind": "precedence", "boxes": "ortho"})
     out.append({"kind": "precedence", "boxes": "triclinic"})
     rots = range(24) if tier == "thorough" else [(7 * seed + k) % 24 for k in (2, 9, 16, 23)]
@@ -2817,7 +2939,7 @@ RUNNERS.update({"dist": run_dist, "angle": run_angle, "dihedral": run_dihedral, 
                 "shapes": run_shapes, "dispbox": run_dispbox, "boxhelpers": run_boxhelpers, "unitcell": run_unitcell, "pbc": run_pbc, "transform": run_transform, "backbone": run_backbone,
                 "models": run_models, "order": run_order, "alias": run_alias, "flavour": run_flavour, "edge": run_edge,
                 "flavour_pairs": run_flavour_pairs, "identity": run_identity, "derived": run_derived,
-                "precedence": run_precedence, "boundary": run_boundary})
+                "precedence": run_precedence, "boundary": run_boundary, "inplace": run_inplace})
 
 
 def run_shard(shard, ctx):
